@@ -509,6 +509,9 @@ def run(ctx):
         lx = int(rng.integers(1, nmax)); mode = int(rng.integers(0, 6))
         if it % 8 == 7:
             lx = int(rng.integers(97, 321))          # long records: vectorised / blocked summation paths
+        very_long = (it % 64 == 15)
+        if very_long:
+            lx = int(rng.integers(1025, 1400)); cx = True          # beyond any plausible size threshold of a "fast path"
         # ---- CORRELATION
         if mode == 0:
             y = None; ly = lx
@@ -519,6 +522,8 @@ def run(ctx):
         x = search_data(rng, lx, cx, style)
         N = max(lx, ly)
         ml = [None, 0, N - 1, int(rng.integers(0, N)), int(rng.integers(0, N)), N + int(rng.integers(0, 3))][int(rng.integers(0, 6))]
+        if very_long:
+            ml = int(rng.integers(0, 6))          # the reference lag sums are O(N * maxlags) Python loops
         norm = NORMS[int(rng.integers(0, 4))]
         xform = str(rng.choice(['array', 'array', 'list'])); yform = str(rng.choice(['array', 'array', 'list']))
         xin = as_input(x, xform); yin = as_input(y, yform)
